@@ -19,6 +19,11 @@ def make_sim(kind, **kw):
     kw.pop('ws_close_mode', None)
     kw.pop('ws_read_timeout', None)
     kw.pop('validate', None)
+    if kind == 'H':
+        # the asyncio server behind the real aiohttp adapter and web server
+        from vf.simh import SimH
+        kw.pop('body_chunks', None)
+        return SimH(**kw)
     return SimA(**kw)
 
 
